@@ -55,6 +55,12 @@ def main():
     o2 = rc.RC('0', (p10,))
     p110 = rc.make_pruned(o2, 3)
     assert p110.mask == 0b110 and p110.get_hash(0) == o2.get_hash(0) == o2.get_hash(1) and p110.get_hash(2) == o2.get_hash(2)
+    from lib import dictref
+    dictref.selftest()
+    # R4 known answer: the pinned dictionary hash of tests/test_hashmap.py (two 267-bit address keys, coin values)
+    keys = {'100' + '00000000' + rc.bytes_to_bits(bytes.fromhex('6f5bc67986e06430961d9df00433926a4cd92e597ddd8aa6043645ac20bd1782')): ('0001' + '00001111', []),
+            '100' + '00000000' + rc.bytes_to_bits(bytes.fromhex('83dfd552e63729b472fcbcc8c45ebcc6691702558b68ec7527e1ba403a0f31a8')): ('0001' + '00001010', [])}
+    assert dictref.encode(keys, 267).hash.hex() == 'c279e85752ad418d54a023d5d391066fa6a560450f9562dcecfa6e6641393b6a'
     print('reference selftest ok')
 
 
